@@ -7,6 +7,7 @@ MPT-based mode, run over the node table of the source trie.
   headers <a> <b>                    -> ok|err stage=… pool=…
   deliver <id|f|x> …                 -> ok|err stage=… pool=…
   block <i>                          -> ok|err[ bh=<n>] stage=… pool=…
+  badblock <i> <n> <id|f<k>> …      -> ok|err[ bh=<n>] stage=… pool=…   (genuine header of a block with n txs, another tx list)
   final                              -> synced
 pool = <count>/<checksum of the sorted ids> while the module asks for MPT data, `-` otherwise.
 -/
@@ -189,6 +190,23 @@ def step (d : DS) (ws : List String) : DS × String :=
         let d2 := { d1 with stage := .blocks, bh := max d1.b0 d1.storedBh }
         (d2, obs s!"ok {l}" d2)
       else (d1, obs s!"ok {l}" d1)
+  | "badblock" :: i :: n :: body =>
+    -- the genuine header with another transaction list: ids are positions in the real list, f<k> = foreign
+    match i.toNat?, n.toNat? with
+    | some i, some n =>
+      if d.stage != .blocks then (d, obs "ok" d)
+      else if d.bh == d.p then (d, obs "ok" d)
+      else if i != d.bh + 1 then (d, obs s!"err bh={d.bh}" d)
+      else
+        let ids := body.map (fun w => match w.toNat? with
+          | some k => k
+          | none => 1000 + ((w.drop 1).toNat?.getD 0))
+        if acceptsBody (List.range n) ids then
+          let d1 := { d with bh := i, storedBh := i }
+          if i == d.p then ({ d1 with stage := .inactive }, obs "ok" { d1 with stage := .inactive })
+          else (d1, obs s!"ok bh={i}" d1)
+        else (d, obs s!"err bh={d.bh}" d)
+    | _, _ => (d, "bad-op")
   | ["final"] => (d, "synced")
   | _ => (d, "bad-op")
 
